@@ -141,17 +141,17 @@ Lemma wf_from_later k segs : forall i, (0 < i)%nat ->
   wf_from k i segs.
 Proof.
   induction segs as [|s r IH]; intros i Hi H1 H2; [exact I|].
-  inversion H1; inversion H2; subst. cbn [wf_from]. repeat split; auto.
+  inversion H1; inversion H2; subst. cbn [wf_from]. split; [assumption|]. split.
   - unfold csis. destruct i; [lia|]. cbn. assumption.
-  - apply IH; auto. lia.
+  - apply IH; [lia|assumption|assumption].
 Qed.
 
 Lemma wf_wf_from k segs : wf k segs -> wf_from k 0 segs.
 Proof.
   intros [H1 H2]. destruct segs as [|s r]; [exact I|].
-  inversion H1; subst. cbn [wf_from]. repeat split; auto.
+  inversion H1; subst. cbn [wf_from]. split; [assumption|]. split.
   - cbn. lia.
-  - apply wf_from_later; auto.
+  - apply wf_from_later; [lia|assumption|assumption].
 Qed.
 
 Lemma chunks_later k segs : forall i, (0 < i)%nat ->
@@ -183,9 +183,9 @@ Lemma length_loop_spec k : forall segs i tot, wf_from k i segs ->
   length_loop k i segs tot = Ok (tot + lenN (concat (chunks_from k i segs))).
 Proof.
   induction segs as [|s r IH]; intros i tot Hwf Hb.
-  - cbn. f_equal. rewrite lenN_nil. lia.
+  - cbn [length_loop chunks_from concat]. change (lenN (@nil N)) with 0. f_equal. lia.
   - destruct Hwf as (Hraw & Hc & Hr). cbn [length_loop chunks_from concat] in *.
-    rewrite lenN_app, chunk_len in * by assumption. rewrite Hraw.
+    rewrite lenN_app in Hb |- *. rewrite (chunk_len k i s Hc) in Hb |- *. rewrite Hraw.
     unfold csis in *. destruct (Nat.eqb i 0).
     + unfold add_u64. destruct (N.ltb_spec (tot + lenN (rs_data s)) two64); [|lia].
       rewrite IH by (assumption || lia). f_equal. lia.
@@ -206,9 +206,9 @@ Lemma segment_ranges_loop_spec k : forall segs i pos, wf_from k i segs ->
   Ok (ranges_spec i (chunks_from k i segs) pos, pos + lenN (concat (chunks_from k i segs))).
 Proof.
   induction segs as [|s r IH]; intros i pos Hwf Hb.
-  - cbn. do 2 f_equal. rewrite lenN_nil. lia.
+  - cbn [segment_ranges_loop chunks_from concat ranges_spec]. change (lenN (@nil N)) with 0. do 2 f_equal. lia.
   - destruct Hwf as (Hraw & Hc & Hr). cbn [segment_ranges_loop chunks_from concat ranges_spec] in *.
-    rewrite lenN_app in *. rewrite Hraw.
+    rewrite lenN_app in Hb |- *. rewrite Hraw.
     assert (Hcl := chunk_len k i s Hc).
     assert (Hcon : (if Nat.eqb i 0 then Some (lenN (rs_data s)) else sub_u64 (lenN (rs_data s)) k)
                    = Some (lenN (chunk k i s))).
@@ -240,7 +240,9 @@ Proof.
     destruct (N.leb_spec e pos) as [He|He].
     { (* break *)
       rewrite (win_after pos c) by assumption. rewrite win_after by lia. now rewrite app_nil_r. }
-    rewrite (Hnth 0%nat sg eq_refl) || (replace (i + 0)%nat with i in Hnth by lia; rewrite (Hnth 0%nat sg eq_refl)).
+    assert (H0 : nth_error all i = Some sg).
+    { replace i with (i + 0)%nat by lia. apply Hnth. reflexivity. }
+    rewrite H0.
     fold (csis k i).
     assert (Hcl : lenN c = lenN (rs_data sg) - csis k i) by (apply chunk_len; assumption).
     assert (Hcs : csis k i <= k) by (unfold csis; destruct (Nat.eqb i 0); lia).
